@@ -84,6 +84,9 @@ def conditions(trace, mounts, resolver):
         out.append(({'kind': 'cond', 'what': 'eio_under', 'dir': d}, ('cond', 'eio_under', d)))
         out.append(({'kind': 'cond', 'what': 'dir_not_searchable', 'dir': d}, ('cond', 'dir_not_searchable', d)))
         out.append(({'kind': 'cond', 'what': 'dir_not_readable', 'dir': d}, ('cond', 'dir_not_readable', d)))
+    for d in sorted(set(posixpath.dirname(ev[3]) for ev in trace if ev[2] == 'write' and isinstance(ev[3], str) and ev[3].startswith('/'))):
+        # (a file-size limit / quota boundary that falls inside what is written there)
+        out.append(({'kind': 'cond', 'what': 'file_size_limit', 'dir': d, 'limit': 40}, ('cond', 'file_size_limit', d)))
     for x in sorted(entries):
         out.append(({'kind': 'cond', 'what': 'immutable', 'entry': x}, ('cond', 'immutable', x)))
     return out
